@@ -1805,6 +1805,38 @@ fn main() {
             db.compact_range(None..None);
             println!("tables_after_release={:?}", v::table_numbers(&o));
         }
+        // manifest_codec : edits of trivial moves (file n deleted at level L, added at level L + 1) and a mixed edit are encoded
+        // and decoded by the real codec
+        "manifest_codec" => {
+            let (mut edits, mut bad, mut first) = (0usize, 0usize, String::new());
+            for level in 0..6usize {
+                for num in [1u64, 7, 300, 70000] {
+                    edits += 1;
+                    let ok = match v::manifest_trivial_move_roundtrip(level, num, 4096) {
+                        Some((del, add)) => del == vec![(level, num)] && add == vec![(level + 1, num)],
+                        None => false,
+                    };
+                    if !ok {
+                        bad += 1;
+                        if first.is_empty() {
+                            first = format!("trivial move of file {} from level {}: {:?}", num, level, v::manifest_trivial_move_roundtrip(level, num, 4096));
+                        }
+                    }
+                }
+            }
+            edits += 1;
+            let r = v::manifest_roundtrip(12, 3, 40, 999, (b"a", 9), (b"m", 8), (2, 41));
+            let ok = matches!(&r, Some((Some(12), 3, 40, 999, s, l, 1)) if s.0 == b"a".to_vec() && s.1 == 9 && l.0 == b"m".to_vec() && l.1 == 8);
+            if !ok {
+                bad += 1;
+                if first.is_empty() {
+                    first = format!("mixed edit: {:?}", r);
+                }
+            }
+            println!("edits={}", edits);
+            println!("mismatches={}", bad);
+            println!("first_mismatch={}", first);
+        }
         "vs_recover" => {
             // a database is created, written and closed; a fresh version set recovers from its files
             use raindb::WriteOptions;
